@@ -11,6 +11,12 @@ CHECKS = {
  "C02": (MC, "TLA+ refinement TableImpl => FiniteMap checked exhaustively by TLC; every transition of the model replayed on the real Table; recorded executions validated by TLC against FiniteMap (MapTrace)",
          "TLC enumerates every set/rem/resize/copy history over colliding and wrapping keys on the transcription of src/Table.c and checks that the slot array is the abstract map; all transitions of that graph plus long random histories over run-time computed collision classes (Int, String, Probe keys) are executed on the real library and each recorded call is a checked step of the abstract map specification.",
          "exhaustive only for the constants of spec/Table_*.cfg; conformance covers the executions driven; the transcription TableImpl is trusted only as a generator (verdicts come from the API-level trace validation)", "5/C02"),
+ "C03": (MC, "TLA+ model RBTree (src/Tree.c transcribed) checked exhaustively by TLC for ordered-map refinement and red-black invariants; every model transition replayed on real Trees; recorded executions and white-box node dumps validated by TLC (MapTrace)",
+         "TLC enumerates all set/rem/clear histories over up to 9 (quick) / 12 (thorough) ordered keys on the transcription of Tree.c and checks MapOK, Ordered, RootBlack, NoRedRed, Balanced, ParentLinks, HeightBound, NoNullDeref; all transitions plus patterned/random/large histories run on the real Tree with Int, String and Probe keys, and TLC checks each recorded call against the ordered map and the dumped node structure against the red-black invariants.",
+         "exhaustive only for the constants of spec/Tree_*.cfg; structural clauses observed through the #include \"Tree.c\" seam (dropped automatically if the layout is refactored)", "5/C03"),
+ "C04": (MC, "TLA+ Sequence specification with per-kind semantics; SeqModel checked exhaustively by TLC; every model transition replayed on real Array/List/Tuple; recorded executions validated by TLC (SeqTrace)",
+         "TLC enumerates all histories of push/pop/push_at/pop_at/set/get/rem/concat/resize/sort/copy with every in- and out-of-range index over a small value set per kind (Array with its backing-store policy) and checks capacity, sorted-permutation, first-occurrence and fail-stutter properties; all transitions plus random histories with Int, String and Probe elements are executed on the real containers and each recorded call (len, get(+-i), mem, iteration both ways) is a checked step of Sequence.",
+         "exhaustive only for the constants of spec/Seq_*.cfg; Tuples never hold the same object twice (open finding); List growth by resize only for Int elements", "5/C04"),
 }
 
 NOT_YET = {
